@@ -8,7 +8,9 @@ use std::process::Command;
 use vcore::common::*;
 
 fn fuzz_dir() -> PathBuf {
-    std::env::var("VERIF_FUZZ_DIR").map(PathBuf::from).unwrap_or_else(|_| PathBuf::from("/verif/fuzz"))
+    std::env::var("VERIF_FUZZ_DIR")
+        .map(PathBuf::from)
+        .unwrap_or_else(|_| std::env::var("VERIF_DIR").map(PathBuf::from).unwrap_or_else(|_| PathBuf::from("/verif")).join("fuzz"))
 }
 
 fn seed_corpus(target: &str, seed: u64) -> Vec<Vec<u8>> {
@@ -101,7 +103,8 @@ pub fn campaign(c: &Campaign, seed: u64) -> (Stats, Option<Found>) {
             .env("VFUZZ_PROP", c.prop)
             .current_dir(&pdir)
             .stdout(std::process::Stdio::null())
-            .stderr(std::process::Stdio::piped())
+            // libFuzzer is chatty on stderr: send it to a file, a pipe that is only drained after exit would stall the process
+            .stderr(std::fs::File::create(pdir.join("stderr.log")).map(std::process::Stdio::from).unwrap_or_else(|_| std::process::Stdio::null()))
             .spawn();
         handles.push((pdir, child));
     }
@@ -121,7 +124,8 @@ pub fn campaign(c: &Campaign, seed: u64) -> (Stats, Option<Found>) {
                 continue;
             }
         };
-        let err = String::from_utf8_lossy(&out.stderr);
+        let err_bytes = std::fs::read(pdir.join("stderr.log")).unwrap_or_default();
+        let err = String::from_utf8_lossy(&err_bytes);
         for line in err.lines() {
             if let Some(v) = line.strip_prefix("stat::number_of_executed_units:") {
                 st.count("fuzz_executions", v.trim().parse().unwrap_or(0));
